@@ -443,7 +443,7 @@ def run(check, repo: Repo) -> None:
     found, n_sites = memo_findings(smod.tree, fns)
     for node, q, msg in found:
         check.violated("C01-R12", f"{q}: persistent cache entries are keyed on all of their inputs", msg + " — e.g. a class cache keyed by class name alone returns the class of "
-                       "another module with the same name, and the loaded object is an instance of the wrong class", smod.line(node))
+                       "another module with the same name, and the loaded object is an instance of the wrong class", smod.line(node), definite=True)
     check.holds("C01-R12", "serialize.py: no under-keyed persistent cache, no accumulating module/class state", f"{len(fns)} functions, containers {sorted(persistent_containers(smod.tree)) or 'none'}, "
                 f"{n_sites} stores", nontrivial=False) if not found else None
 
@@ -991,7 +991,7 @@ def _rule_sequence_order(check, repo: Repo) -> None:
                 why = "sorted numerically" if verdict else f"`{it.id} = {unparse(dd[0])[:70]}` orders the decimal index strings lexicographically ('10' < '2')"
         if verdict is None:
             raise AnalysisError(f"_deserialize_container: iteration source `{unparse(it)[:60]}` of the sequence decode loop is not a recognised ordering idiom")
-        check.decide(verdict, "C01-R10", "_deserialize_container[list|tuple]: elements are read back in numeric index order", why, mod.line(lp),
+        check.decide(verdict, "C01-R10", "_deserialize_container[list|tuple]: elements are read back in numeric index order", why, mod.line(lp), definite=True,
                      fail_detail=f"{why}: sequences with more than ten element-wise encoded entries come back permuted")
 
 
